@@ -145,6 +145,7 @@ impl Check for DhcpLeases {
             m = m.with(LeaseWatcher { client: c, release_at_ms: releaser.filter(|r| r.0 == c).map(|r| r.1), server: server_ip, log: log.clone(), wire: wire.clone() });
             machines.push(m.arc());
         }
+        let _release = ReleaseOnDrop(machines.clone());
         let (_st, panics): (Option<_>, _) = run_virtual(async { run_internet_with_timeout(&machines, Duration::from_secs(6)).await });
         let frames = wire.snapshot();
         let lg = log.lock().unwrap().clone();
